@@ -11,7 +11,7 @@ SPEC = {
     'groups': [{
         'name': 'ts', 'wrapper': 'w10.cpp', 'harness': 'h10.c',
         'config': {'memleak': True, 'stubs': STUBS, 'heapcheck': False, 'empty_regex': ['^_ZN[0-9]+[A-Za-z]*FailureC[12]E', '^_ZN[0-9]+[A-Za-z]*FailureD[012]E'], 'defines': ['-DCPPUTEST_VERIF_HASH_TABLE_SIZE=4']},
-        'obligations': [{'fn': 'harness_entry_%d_%d' % (k, m), 'unwind': 40, 'timeout': 600, 'diff_runs': 20, 'optional_witness': ['exit path', 'skipped', 'end'], 'bounds': 'entry point %s, one call, overload mode %s' % (N[k], ('off', 'default (not thread-safe)', 'thread-safe')[m])} for k in (0, 2, 3, 5, 6, 7, 8, 9, 10) for m in range(3)] + [
+        'obligations': [{'fn': 'harness_entry_%d_%d' % (k, m), 'unwind': 40, 'timeout': 600, 'diff_runs': 20, 'optional_witness': ['exit path', 'skipped', 'end'], 'bounds': 'entry point %s, one call, overload mode %s' % (N[k], ('off', 'default (not thread-safe)', 'thread-safe', 'thread-safe, restored after saveAndDisable/restore')[m])} for k in (0, 2, 3, 5, 6, 7, 8, 9, 10) for m in range(4)] + [
             {'fn': 'finding_misuse_leaves_lock_held', 'unwind': 40, 'timeout': 900, 'expect': 'fail', 'optional_witness': ['end'], 'bounds': 'thread-safe mode; free() of a foreign address (misuse) reported through the real MemoryLeakWarningReporter'}],
     }],
 }
